@@ -347,6 +347,10 @@ def getattr_value(interp, st, base, attr, node=None):
         if f.classmethod_:
             return I.BoundMethod(cref, f)
         return I.BoundMethod(base, f, node.value if node is not None else None)
+    if isinstance(base, I.ObjMethod):
+        base = base.value
+    if I.is_obj(base):
+        return I.ObjMethod(base, attr)
     if isinstance(base, I.SuperRef):
         r = class_attr(interp, base.base, attr) if base.base is not None else None
         if isinstance(r, tuple) and isinstance(r[0], I.RepoFunc):
@@ -525,6 +529,8 @@ def call_value(interp, st, f, args, kwargs, node, self_node=None):
         if f.name in LIBFUNCS:
             return LIBFUNCS[f.name](interp, st, args, kwargs, node)
         raise Outside(f"call of unmodelled library function {f.name}", node)
+    if isinstance(f, I.ObjMethod):
+        return call_obj_method(interp, st, f, args, kwargs, node)
     if isinstance(f, I.UPred):
         return f.call(args, kwargs)
     if isinstance(f, I.UFunc):
@@ -537,6 +543,43 @@ def call_value(interp, st, f, args, kwargs, node, self_node=None):
     if isinstance(f, I.Opaque):
         raise Outside(f"call of opaque {f.what}", node)
     raise Outside(f"call of {type(f).__name__}", node)
+
+
+def _flat_obj_args(args, kwargs):
+    flat = []
+    for a in list(args) + [kwargs[k] for k in sorted(kwargs)]:
+        for l in V.leaves_of(a):
+            if l is None:
+                continue
+            flat.append(z3.StringVal(l) if isinstance(l, str) else to_z3(l))
+    return flat
+
+
+def call_obj_method(interp, st, f, args, kwargs, node):
+    """a method of an opaque object (a path, a cache file handle, a dataset class, a config ...): the CONTRACT under verification says which
+    of them may raise what (`ext_raises`), which return a bool (`ext_bool`) and which calls are recorded as events (`ext_events`);
+    the result is an unknown function of receiver and arguments"""
+    I = _I()
+    cur = getattr(interp.ctx, "current_contract", None)
+    raises = getattr(cur, "ext_raises", {}).get(f.attr, []) if cur is not None else []
+    ln = getattr(node, "lineno", "?")
+    for exc in raises:
+        est = st.copy()
+        est.excs = []
+        est.guards = []
+        est.pc.extend(to_z3(g) for g in st.guards)
+        est.trace.append(f"{f.attr}-raises:{exc}@{ln}")
+        st.excs.append((exc, est))
+    flat = _flat_obj_args(args, kwargs)
+    is_bool = cur is not None and f.attr in getattr(cur, "ext_bool", ())
+    fn = z3.Function(f"ext.{f.attr}!{len(flat)}!" + "_".join(str(x.sort()).replace(" ", "") for x in flat)[:160],
+                     *([I.OBJ_SORT] + [x.sort() for x in flat] + [z3.BoolSort() if is_bool else I.OBJ_SORT]))
+    res = fn(f.base, *flat)
+    if cur is not None and f.attr in getattr(cur, "ext_events", ()) and not interp.ctx.options.get("spec_mode"):
+        ev = list(st.env.get("__events__", []))
+        ev.append((f.attr, f.base, tuple(args), dict(kwargs), res))
+        st.env["__events__"] = ev
+    return res
 
 
 def bind_params(interp, st, fnode, args, kwargs, mod, cls, node):
